@@ -348,9 +348,12 @@ def _bm_cfgs(tier):
 
 def _enumerate_or_sample(k, n, t, budget, rng):
     """all (message, error pattern of weight <= t) pairs if their number is <= budget, else a seeded sample with every weight"""
-    pats = [p for w in range(t + 1) for p in itertools.combinations(range(n), w)]
-    total = (1 << k) * len(pats)
+    import math
+
+    npats = sum(math.comb(n, w) for w in range(t + 1))  # counted, never materialised (RM(0,5): 1.5e9 patterns)
+    total = (1 << k) * npats
     if total <= budget:
+        pats = [p for w in range(t + 1) for p in itertools.combinations(range(n), w)]
         for mi in range(1 << k):
             for p in pats:
                 yield mi, p
@@ -370,8 +373,11 @@ def _bounded_decoder(spec, cfg, tier, seed, kind, function):
     t, d, src = capability(enc, cfg)
     Gm = Gd.rows_to_masks(SP.int_matrix(enc.generator_matrix))
     rng = random.Random(seed * 7 + 5)
-    budget = 2500 if tier == "quick" else 40000
-    pats = sum(1 for w in range(t + 1) for _ in itertools.combinations(range(n), w))
+    import math
+
+    # evaluations per configuration; the Berlekamp-Massey decoder costs ~20 ms per word at length 31/63 (Python finite-field arithmetic)
+    budget = 2500 if tier == "quick" else ((6000 if n <= 31 else 1500) if kind == "bm" else 40000)
+    pats = sum(math.comb(n, w) for w in range(t + 1))
     exhaustive = (1 << k) * pats <= budget
     evals, fail_single, fail_batch = 0, None, None
     cases = list(_enumerate_or_sample(k, n, t, budget, rng))
